@@ -73,6 +73,12 @@ def generate(repo, ws, write_if_changed):
         dict(kind="fn", name="find_height_after_window_fast"),
         dict(kind="fn", name="find_height_after_window_slow"),
     ]))
+    emit("syncer_c25.rs", slice_file(repo, "node/src/syncer.rs", [
+        dict(kind="const", name="SLOW_SYNC_MIN_THRESHOLD"),
+        dict(kind="fn", name="fetch_next_batch", impl=r"impl<S> Worker<S>", wrap="impl Worker"),
+        dict(kind="fn", name="in_sampling_window", impl=r"impl<S> Worker<S>", wrap="impl Worker"),
+        dict(kind="fn", name="calculate_range_to_fetch"),
+    ]))
     emit("pruner_c35.rs", slice_file(repo, "node/src/pruner.rs", [
         dict(kind="const", name="MAX_PRUNABLE_BATCH_SIZE"),
         dict(kind="fn", name="get_next_prunable_batch", impl=r"impl<S, B> Worker<S, B>", wrap="impl Worker"),
